@@ -487,6 +487,31 @@ def check_geometry(i0, i1, i2, i3, axis_i, angle_i, shape_i):
                 g = np.asarray(getattr(struc, fn)(obj, idx, periodic=True, **kw), dtype=float)
                 if not np.allclose(g, want, atol=2e-4):
                     return f"{fn}(periodic=True, {what}) = {np.ravel(g)[:3].tolist()}, coordinate-based function with that box: {np.ravel(want)[:3].tolist()} ({label})"
+    # with a box, distance / angle / dihedral do not depend on which periodic image of an atom is stored: shifting any
+    # single atom by a lattice vector changes nothing (cells roomy enough for the minimum image to be unique)
+    big = np.array([[30.0, 0, 0], [4.0, 28.0, 0], [-3.0, 5.0, 26.0]], dtype=np.float32)
+    c0 = P.astype(np.float32)
+    ref = (float(struc.distance(c0[0], c0[1], box=big)), float(struc.angle(c0[0], c0[1], c0[2], box=big)),
+           float(struc.dihedral(c0[0], c0[1], c0[2], c0[3], box=big)))
+    for name, g, want in zip(("distance", "angle", "dihedral"), ref, (dist, ang, dih)):
+        if abs(g - want) > 2e-4:
+            return f"{name} with a roomy box differs from the plain value: {g} vs {want}"
+    for which in range(4):
+        for lat in ((1, 0, 0), (0, -1, 0), (0, 0, 1), (-1, 1, -1)):
+            cs = c0.copy()
+            cs[which] += (np.array(lat, dtype=np.float32) @ big)
+            got = (float(struc.distance(cs[0], cs[1], box=big)), float(struc.angle(cs[0], cs[1], cs[2], box=big)),
+                   float(struc.dihedral(cs[0], cs[1], cs[2], cs[3], box=big)))
+            arr_p = struc.AtomArray(4)
+            arr_p.coord = cs
+            arr_p.box = big
+            got_i = (float(struc.index_distance(arr_p, np.array([[0, 1]]), periodic=True)[0]), float(struc.index_angle(arr_p, np.array([[0, 1, 2]]), periodic=True)[0]),
+                     float(struc.index_dihedral(arr_p, np.array([[0, 1, 2, 3]]), periodic=True)[0]))
+            for name, g, gi_, want in zip(("distance", "angle", "dihedral"), got, got_i, ref):
+                for val in (g, gi_):
+                    dev = abs(val - want) if name != "dihedral" else abs((val - want + np.pi) % (2 * np.pi) - np.pi)
+                    if dev > 5e-4:
+                        return f"periodic {name} changes from {want:.5f} to {val:.5f} when atom {which} is stored as the image shifted by {lat}"
     # rigid motions produced by the library itself leave distance, angle and SIGNED dihedral unchanged
     arr = struc.AtomArray(4)
     arr.coord = P.astype(np.float32)
@@ -514,8 +539,8 @@ def check_cell(li, ai):
     """unit cell <-> box vectors are mutually inverse; box vectors have the requested lengths and angles"""
     import numpy as np
     import biotite.structure as struc
-    lengths = [(4.0, 5.0, 6.0), (10.0, 10.0, 10.0), (3.5, 7.25, 12.0)][li]
-    angles = [(90, 90, 90), (90, 100, 90), (80, 95, 110), (60, 60, 60), (90, 90, 120)][ai]
+    lengths = [(4.0, 5.0, 6.0), (10.0, 10.0, 10.0), (3.5, 7.25, 12.0), (40.0, 50.0, 8.0)][li]
+    angles = [(90, 90, 90), (90, 100, 90), (80, 95, 110), (60, 60, 60), (90, 90, 120), (90, 91, 90), (89.5, 90, 90.5)][ai]
     al, be, ga = [np.deg2rad(x) for x in angles]
     box = struc.vectors_from_unitcell(*lengths, al, be, ga)
     if box.shape != (3, 3):
@@ -702,7 +727,7 @@ def ob_geometry_concrete(tier):
     for s_ in range(4):
         cases.append(Case(f"distance / angle / dihedral / index variants, argument shapes {s_}", base + [v[6] == s_], run_geo, dict(zip(keys, v)), rep(check_geometry, keys)))
     l, a = z3.Ints("l a")
-    cases.append(Case("unit cell <-> box vectors", [l >= 0, l < 3, a >= 0, a < 5], lambda: check_cell(cur().choose(l, range(3)), cur().choose(a, range(5))) is None,
+    cases.append(Case("unit cell <-> box vectors", [l >= 0, l < 4, a >= 0, a < 7], lambda: check_cell(cur().choose(l, range(4)), cur().choose(a, range(7))) is None,
                       dict(li=l, ai=a), rep(check_cell, ["li", "ai"])))
     b, d = z3.Ints("b d")
     cases.append(Case("remove_pbc_from_coord on wrapped chains", [b >= 0, b < len(BOXES), d >= 0, d <= 3],
